@@ -434,21 +434,50 @@ def run(ctx):
         ctx.machinery_failure("ValidateMC: %r\n%s" % (r.violated, r.raw[-1200:]))
     ctx.add_mc(r, "ValidateMC: verdict function on prescribed forests of a nested structure x all inputs <= 6")
     rnd = random.Random(ctx.seed + 4)
-    jobs = []
-    for v in T.versions():
-        sids = T.message_names(v)
-        if quick:
-            rnd.shuffle(sids)
-            sids = sids[:9]
-        for k in range(3):
-            jobs.append((v, sids[k::3], ctx.seed, quick))
+    state = {"next": 1, "sampled": 0}
+
+    def flush(evs):
+        """judge a batch and forget it (the thorough tier produces several hundred thousand observations)"""
+        if not evs:
+            return
+        for e in evs:
+            e["id"] = state["next"]
+            state["next"] += 1
+        ctx.evaluations += len(evs)
+        send = [{k: e[k] for k in e if k not in ("mode", "mutation", "v")} for e in evs]
+        failed, _ = judge(ctx, "ValidateTrace", "ValidateTrace.cfg", send, heap="4g")
+        byid = {e["id"]: e for e in evs}
+        for e in evs:
+            ctx.nontrivial((e["v"], e["sid"], e["mode"], e["mutation"]))
+        for i, clause in sorted(failed.items()):
+            e = byid[i]
+            ctx.fail(signature(e, clause), {"clause": clause, "v": e["v"], "sid": e["sid"], "mode": e["mode"], "mutation": e["mutation"],
+                                            "tree": e["tree"], "errors": e["errors"], "err_texts": e["err_texts"][:12],
+                                            "raised": e["raised"], "file_lines": e["file_lines"][:5]})
+        if not state["sampled"]:
+            state["sampled"] = 1
+            for e in evs[:2]:
+                ctx.sample({"v": e["v"], "sid": e["sid"], "mode": e["mode"], "mutation": e["mutation"], "errors": e["errors"][:6]})
+
     events = []
-    for part in pmap(_chunk, jobs):
-        for e in part:
-            if "harness_note" in e:
-                ctx.notes.append(e["harness_note"])
-            else:
-                events.append(e)
+    for vbatch in ([T.versions()] if quick else [[v_] for v_ in T.versions()]):
+        jobs = []
+        for v in vbatch:
+            sids = T.message_names(v)
+            if quick:
+                rnd.shuffle(sids)
+                sids = sids[:9]
+            for k in range(3 if quick else 16):
+                jobs.append((v, sids[k::(3 if quick else 16)], ctx.seed, quick))
+        for part in pmap(_chunk, jobs):
+            for e in part:
+                if "harness_note" in e:
+                    ctx.notes.append(e["harness_note"])
+                else:
+                    events.append(e)
+        if not quick:
+            flush(events)
+            events = []
     # every field with a bounded maximum above one (they exist from 2.6 on), in a segment validated on its own
     bj = []
     for v in T.versions():
@@ -495,21 +524,7 @@ def run(ctx):
                        "raised": "-", "file_lines": []})
     ctx.extra["order_independence_observations"] = len(fwd)
     ctx.notes = sorted(set(ctx.notes))[:40]
-    for i, e in enumerate(events):
-        e["id"] = i + 1
-    ctx.evaluations += len(events)
-    send = [{k: e[k] for k in e if k not in ("mode", "mutation", "v")} for e in events]
-    failed, _ = judge(ctx, "ValidateTrace", "ValidateTrace.cfg", send, heap="4g")
-    byid = {e["id"]: e for e in events}
-    for e in events:
-        ctx.nontrivial((e["v"], e["sid"], e["mode"], e["mutation"]))
-    for i, clause in sorted(failed.items()):
-        e = byid[i]
-        ctx.fail(signature(e, clause), {"clause": clause, "v": e["v"], "sid": e["sid"], "mode": e["mode"], "mutation": e["mutation"],
-                                        "tree": e["tree"], "errors": e["errors"], "err_texts": e["err_texts"][:12],
-                                        "raised": e["raised"], "file_lines": e["file_lines"][:5]})
-    for e in events[:2]:
-        ctx.sample({"v": e["v"], "sid": e["sid"], "mode": e["mode"], "mutation": e["mutation"], "errors": e["errors"][:6]})
+    flush(events)
     ctx.rule = ("message structures (quick: 9 per version; thorough: all) x up to 4 (12) generated instances x {as parsed, "
                 "required segment removed, non-repeatable segment duplicated, group removed, foreign segment in a group / in "
                 "the message, unknown field, duplicated field, Z-segment, a foreign / Z segment or an unknown field added and "
